@@ -62,6 +62,8 @@ def objects(tier):
         for sname in fam.seeds:
             out.append((f"{fname}.{sname}", fname, sname, None))
             for lname in fam.labels:
+                if lname == "for_update#of-many":
+                    continue  # (its table names are CHOSEN by a search under this process's string hashing: not one program across hash seeds)
                 out.append((f"{fname}.{sname}/{lname}", fname, sname, lname))
     extra = extra_objects()
     return fams, out, extra
@@ -93,6 +95,9 @@ def extra_objects():
         # parts built with immutable=False inside an ordinary statement: a render of the statement must not call their (in-place) builder methods
         out[f"x.{d}.mutable_parts"] = lambda Q=Q: (lambda sub: Q.from_(t1).select(t1.a, sub).groupby(sub).orderby(sub).where(t1.b.isin(Q.from_(t2, immutable=False).select(t2.b))))(
             Q.from_(t2, immutable=False).select(fn.Max(t2.a)).as_("mx"))
+        out[f"x.{d}.mutable_update_join"] = lambda Q=Q: Q.update(t1, immutable=False).join(t2).on(t1.a == t2.a).set(t1.b, t2.b).where(t1.c == 1)
+        out[f"x.{d}.mutable_upsert"] = lambda Q=Q: Q.into(t1, immutable=False).columns("a", "b").insert(1, 2).on_conflict("a").do_update("b", 3)
+        out[f"x.{d}.mutable_delete_join"] = lambda Q=Q: Q.from_(t1, immutable=False).join(t2).on(t1.a == t2.a).where(t2.b == 1).delete()
         out[f"x.{d}.mutable_root"] = lambda Q=Q: Q.from_(t1, immutable=False).select(t1.a.as_("al"), fn.Count("*")).groupby(t1.a.as_("al")).orderby(t1.a.as_("al")).limit(3)
         # temporal constants (aware / naive) where the dialect's own wrapper class formats them: SET values, selected constants, INSERT rows
         out[f"x.{d}.temporal_values"] = lambda Q=Q: (Q.update(t1).set(t1.a, datetime.time(1, 2, 3, tzinfo=datetime.timezone.utc))
